@@ -36,7 +36,7 @@ RULE = ('per nn op: relu / leaky_relu (any slope) / selu / tanh / sigmoid, softm
         'earlier op (everything upstream frozen); every operand gradient is compared after one sweep and after a second one.')
 EXHAUSTIVE = {'quick': False, 'thorough': False}
 ASSUMPTIONS = base.ASSUMPTIONS + ['relu-family inputs are kept away from the kink, pooling inputs distinct (ties are exercised by the model comparison only)']
-TRUSTED_BASE = base.TRUSTED_BASE
+TRUSTED_BASE = [t for t in base.TRUSTED_BASE if 'array_formulas' not in t]
 
 
 class BNExec(tprog.Impl):
